@@ -40,7 +40,7 @@ pub fn g_blob16(n: usize) -> impl Strategy<Value = Vec<u16>> {
 // ---------------------------------------------------------------------------------------------
 
 /// character classes, ordered from "simple" to "exotic" (shrinking moves to class 0)
-const N_CLASSES: usize = 10;
+const N_CLASSES: usize = 11;
 
 fn class_char(class: usize, r: u8) -> u8 {
     match class {
@@ -53,6 +53,9 @@ fn class_char(class: usize, r: u8) -> u8 {
         6 => b"!\"#$%&'()*+,-./:;<=>?@[\\]^_"[(r % 27) as usize], // C40 shift 2 set
         7 => r % 32,                              // C0 controls
         8 => 128 + r % 128,                       // upper half
+        // bytes at the edges of the value tables of the modes (first / last of each set, DEL, NUL, the
+        // EDIFACT range ends, the Base256 / upper shift boundary)
+        10 => [0x00u8, 0x1f, 0x20, 0x2f, 0x30, 0x39, 0x3a, 0x40, 0x41, 0x5a, 0x5b, 0x5e, 0x5f, 0x60, 0x61, 0x7a, 0x7b, 0x7e, 0x7f, 0x80, 0x81, 0x9f, 0xa0, 0xaf, 0xc0, 0xdf, 0xfe, 0xff][(r % 28) as usize],
         _ => r,                                   // anything
     }
 }
@@ -92,7 +95,7 @@ pub fn g_eod() -> impl Strategy<Value = Vec<u8>> {
             for i in 0..blen {
                 v.push(class_char(bclass, seeds[i % 48].wrapping_add((i / 48) as u8)));
             }
-            let tclass = [0usize, 0, 1, 2, 8, 4, 6][pick(tk, 7)];
+            let tclass = [0usize, 0, 1, 2, 8, 4, 6, 10, 10][pick(tk, 9)];
             for i in 0..tl {
                 v.push(class_char(tclass, seeds[47 - i]));
             }
@@ -334,7 +337,9 @@ pub fn fit_pad(data: &[u8], modes: u8, k: u8) -> Vec<u8> {
     let mut caps: Vec<usize> = SYMBOLS.iter().map(|s| s.data).collect();
     caps.sort_unstable();
     caps.dedup();
-    let Some(cap) = caps.iter().filter(|c| **c >= len + slack).nth(skip) else { return data.to_vec() };
+    // one case in eight: a capacity far enough away for a digit run of more than 256 characters in front
+    let far = if k / 6 % 8 == 7 { 130 } else { 0 };
+    let Some(cap) = caps.iter().filter(|c| **c >= len + slack + far).nth(skip) else { return data.to_vec() };
     let need = cap - slack - len;
     if need == 0 || need > 400 {
         return data.to_vec();
